@@ -181,13 +181,13 @@ def obligations(tier):
         from scipy.optimize import nnls as sp_nnls
         rng = np.random.RandomState(0)
         n_eval, fails = 0, []
-        for n_unk in range(1, 9 if tier == "thorough" else 6):
+        for n_unk in range(1, 9):
             for n_rhs in (1, 2, 5) if tier == "thorough" else (1, 3):
                 for kind in ("signed", "nonneg"):
                     U = rng.standard_normal((n_unk + 4, n_unk))
                     if kind == "nonneg":
                         U = np.abs(U)
-                    M = U @ np.maximum(rng.standard_normal((n_unk, n_rhs)), 0) + 0.1 * rng.standard_normal((n_unk + 4, n_rhs))
+                    M = U @ np.maximum(rng.standard_normal((n_unk, n_rhs)), 0) + (0.1 if n_rhs == 1 else 0.5) * rng.standard_normal((n_unk + 4, n_rhs))  # larger noise: more active constraints
                     UtU, UtM = U.T @ U, U.T @ M
                     ref = np.stack([sp_nnls(U, M[:, j])[0] for j in range(n_rhs)], 1)
                     fref = 0.5 * np.linalg.norm(U @ ref - M) ** 2
@@ -204,15 +204,19 @@ def obligations(tier):
                         if x.min() < 0 or f > fref * (1 + 1e-4) + 1e-8:
                             fails.append(f"fista {kind} {n_unk}x{n_rhs} {start}: objective {f:.6e} vs reference {fref:.6e}")
                     for j in range(n_rhs):
-                        xa = nn.active_set_nnls(UtM[:, j].copy(), UtU.copy(), n_iter_max=500)
-                        f = 0.5 * np.linalg.norm(U @ xa - M[:, j]) ** 2
                         fr = 0.5 * np.linalg.norm(U @ ref[:, j] - M[:, j]) ** 2
-                        n_eval += 1
-                        if xa.min() < -1e-12 or f > fr * (1 + 1e-6) + 1e-9:
-                            fails.append(f"active_set_nnls {kind} {n_unk} unknowns rhs {j}: objective {f:.6e} vs reference {fr:.6e}")
+                        wrong = (ref[:, j] <= 0).astype(float) + 0.5 * rng.rand(n_unk) * (rng.rand(n_unk) > 0.5)  # a guess supported where the solution is not
+                        starts = [("cold", None), ("warm: perturbed solution", ref[:, j] + 0.1 * np.abs(rng.standard_normal(n_unk))), ("warm: all ones", np.ones(n_unk)),
+                                  ("warm: wrong support", wrong), ("warm: large", 10 * np.abs(rng.standard_normal(n_unk)))]
+                        for sname, x0 in starts:
+                            xa = nn.active_set_nnls(UtM[:, j].copy(), UtU.copy(), x=None if x0 is None else x0.copy(), n_iter_max=500)
+                            f = 0.5 * np.linalg.norm(U @ xa - M[:, j]) ** 2
+                            n_eval += 1
+                            if xa.min() < -1e-12 or f > fr * (1 + 1e-6) + 1e-9:
+                                fails.append(f"active_set_nnls {kind} {n_unk} unknowns rhs {j} {sname}: objective {f:.6e} vs reference {fr:.6e}")
         return n_eval, fails
     obs.append(BoundedOb(f"{PID}/bounded/converged outputs attain the reference NNLS optimum", "tensorly.solvers.nnls:hals_nnls+fista+active_set_nnls", bounded,
-                         dict(unknowns="1-5 (8 thorough)", rhs="1,3 (1,2,5 thorough)"), "seed 0; signed and non-negative designs; cold and warm starts; reference scipy.optimize.nnls"))
+                         dict(unknowns="1-8", rhs="1,3 (1,2,5 thorough)"), "seed 0; signed and non-negative designs; cold start and 1 (HALS, FISTA) / 4 (active set) kinds of warm start; reference scipy.optimize.nnls"))
     return obs
 
 
